@@ -2,7 +2,7 @@
 From Coq Require Import PeanoNat Arith Lia.
 From AV Require Import Base.Bytes Base.Outcome Hash.HashModel Tree.Heap Tree.Ops Tree.Script Tree.Serialize
   Tree.Inv Tree.InvProofsBase Tree.InvProofsCore Tree.InvProofsTree Tree.InvProofsPrim Tree.InvProofsNav
-  Tree.InvProofsRemove Tree.InvProofsFiles
+  Tree.InvProofsRemove Tree.InvProofsFiles Tree.IndexProofsAssoc
   Tree.Files Tree.FilesProofsBase Tree.FilesProofsProj Tree.FilesProofsFrame Tree.FilesProofsOps
   Tree.FilesProofsSet Tree.FilesProofsHole Tree.FilesProofsAdd Tree.FilesProofsStrip.
 Open Scope string_scope.
@@ -253,6 +253,163 @@ Proof.
       unfold Known_root_last, is_root, files_of, last_of in HK. rewrite Hn, Hrp in HK. cbn in HK. rewrite <- Ec in HK.
       intros E. rewrite E in HK. cbn in HK. rewrite Bool.andb_true_r in HK.
       apply Bool.negb_false_iff, is_empty_nil in HK. congruence. }
+  destruct (del_loop_inv _ _ _ _ TI3 FI3 H) as (_ & FI4 & _). exact FI4.
+Qed.
+
+(* ---------- AutosarModel::remove_file (another file remains) ---------- *)
+Lemma index_of_split (f : N) l : forall pos, index_of (N.eqb f) l = Some pos ->
+  exists l1 l2, l = l1 ++ f :: l2 /\ List.length l1 = pos.
+Proof.
+  induction l as [|a l IH]; intros pos H; cbn in H; [discriminate|].
+  destruct (f =? a) eqn:E.
+  - injection H as <-. apply N.eqb_eq in E. subst. exists [], l. auto.
+  - destruct (index_of (N.eqb f) l) as [k|] eqn:Ek; [|discriminate]. injection H as <-.
+    destruct (IH k eq_refl) as (l1 & l2 & -> & <-). exists (a :: l1), l2. auto.
+Qed.
+
+Lemma in_swap_remove_other (f g : N) l pos : index_of (N.eqb f) l = Some pos -> In g l -> g <> f -> In g (swap_remove_at l pos).
+Proof.
+  intros H Hg Hne. destruct (index_of_split _ _ _ H) as (l1 & l2 & -> & <-).
+  eapply Permutation.Permutation_in; [apply Permutation.Permutation_sym; apply swap_remove_at_perm|].
+  apply in_app_iff in Hg as [Hg|[E|Hg]]; [apply in_or_app; auto|congruence|apply in_or_app; auto].
+Qed.
+
+Lemma list_set_same {A} (l : list A) k x : nth_opt l k = Some x -> list_set l k x = l.
+Proof. revert k. induction l as [|a l IH]; intros [|k] H; cbn in *; try discriminate; [congruence|]. f_equal. auto. Qed.
+
+Theorem remove_file_inv m f w r w' :
+  TreeInv w -> FilesInv T w ->
+  Known_root_last w (OpRemoveFile m f) = false -> Unowned w (OpRemoveFile m f) = false -> last_file w (OpRemoveFile m f) = false ->
+  m_remove_file T m f w = Val (r, w') -> FilesInv T w'.
+Proof.
+  intros TI FI HK HU HL H. pose proof TI as (C & _). unfold m_remove_file in H.
+  apply wbind_inv in H as [(x & w0 & H1 & H) | (e0 & H1 & _)]; [|apply get_model_inv in H1 as (? & _ & [=] & _)].
+  apply get_model_inv in H1 as (x' & Hx & [= <-] & ->).
+  destruct (index_of (N.eqb f) (m_files x)) as [pos|] eqn:Hpos; [|apply wret_inv in H as (_ & ->); exact FI].
+  unfold last_file, model_b in HL. rewrite Hx, Hpos in HL.
+  set (files' := swap_remove_at (m_files x) pos) in *.
+  apply wbind_inv in H as [(u & w1 & H1 & H) | (e0 & H1 & _)]; [|discriminate].
+  apply set_model_inv in H1 as (_ & ->). rewrite HL in H.
+  set (x1 := set_mfiles x files') in *.
+  set (w1 := wmodels w (list_set (w_models w) (N.to_nat m) x1)) in *.
+  apply wbind_inv in H as [(o & w2 & H2 & H) | (e0 & H2 & _)]; [|apply wtry_inv in H2 as (? & _ & [=])].
+  apply wret_inv in H as (_ & Ew). subst w2. apply wtry_inv in H2 as (r0 & H & _).
+  assert (In x (w_models w)) as Hxin by (eapply nth_opt_In; eauto).
+  pose proof (FI x Hxin) as FIx.
+  assert (In f (m_files x)) as Hfin.
+  { destruct (index_of_split _ _ _ Hpos) as (l1 & l2 & E & _). rewrite E. apply in_or_app. right. left. reflexivity. }
+  assert (m_files x <> []) as Hmf by (intros E; rewrite E in Hfin; destruct Hfin).
+  assert (forall j, w_nodes w1 j = w_nodes w j) as Hn1 by reflexivity.
+  assert (same_tree w w1) as ST.
+  { repeat split; auto. unfold roots, w1. cbn. apply list_set_map. intros y Hy. rewrite <- nth_opt_error in Hy.
+    assert (y = x) by congruence. subst. reflexivity. }
+  assert (TreeInv w1) as TI1 by (eapply TreeInv_same_tree; eauto). pose proof TI1 as (C1 & _).
+  destruct (root_node _ _ C Hxin) as (rn & k & Hrn & Hrp).
+  assert (k = m) as ->.
+  { destruct TI as (_ & _ & RO). pose proof (RO _ _ _ Hrn Hrp) as Hr. unfold roots in Hr.
+    rewrite nth_error_map in Hr. rewrite nth_opt_error in Hx.
+    destruct (nth_error (w_models w) (N.to_nat k)) as [y|] eqn:Hy; [|discriminate]. cbn in Hr. injection Hr as Hr.
+    assert (y = x) by (apply (same_root_same_model w y x C); [eapply nth_error_In; eauto | exact Hxin | exact Hr]). subst y.
+    destruct (Nat.eq_dec (N.to_nat k) (N.to_nat m)) as [E|E]; [apply Nnat.N2Nat.inj; auto|].
+    exfalso. eapply (diff_pos_diff_root w _ _ x x C Hy Hx E). reflexivity. }
+  assert (Reach w (m_root x) (m_root x)) as Hrr by (constructor; exists rn; auto).
+  destruct (fi_eff _ _ _ FIx Hmf _ Hrr) as (cur & Hcur).
+  assert (cur = n_files rn /\ n_files rn <> []) as (Ecur & Hrne).
+  { destruct (n_files rn) as [|g l0] eqn:Ef.
+    - destruct (Eff_up_inv _ _ _ _ Hcur Hrn Ef) as (p & Hp & _). congruence.
+    - split; [|discriminate]. rewrite <- Ef. eapply Eff_local_inv; eauto. congruence. }
+  assert (set_remove f cur <> []) as Hrest.
+  { unfold Known_root_last, model_b, files_of, last_of in HK. rewrite Hx, Hpos, Hrn in HK. fold files' in HK.
+    rewrite HL in HK. cbn in HK. rewrite <- Ecur in HK. intros E. rewrite E in HK. cbn in HK.
+    rewrite Bool.andb_true_r in HK. apply Bool.negb_false_iff, is_empty_nil in HK. congruence. }
+  (* run remove_from_file on the root *)
+  unfold e_remove_from_file in H.
+  apply wbind_inv in H as [(n & w2 & H1 & H) | (e0 & H1 & _)]; [|apply get_node_inv in H1 as (? & _ & [=] & _)].
+  apply get_node_inv in H1 as (n' & Hn & [= <-] & ->). rewrite Hn1 in Hn. assert (n = rn) by congruence. subst n.
+  apply wbind_inv in H as [(ps & w2 & H1 & H) | (e0 & H1 & _)].
+  2:{ exfalso. apply parent_splittable_spec in H1 as (_ & [(Hp & _)|[(m0 & _ & [=])|(p & pn & sv & Hp & _)]]); congruence. }
+  apply parent_splittable_spec in H1 as (-> & [(Hp & _)|[(m0 & _ & [= ->])|(p & pn & sv & Hp & _)]]); try congruence.
+  cbn [negb] in H.
+  apply wbind_inv in H as [(fm & w2 & H1 & H) | (e0 & H1 & _)].
+  2:{ exfalso. unfold file_model in H1. apply wbind_inv in H1 as [(? & ? & _ & H1) | (? & H1 & _)]; [discriminate|].
+      apply get_file_inv in H1 as (? & _ & [=] & _). }
+  unfold file_model in H1.
+  apply wbind_inv in H1 as [(fl & w3 & H0 & H1) | (e0 & H0 & [=])].
+  apply get_file_inv in H0 as (fl' & Hfl & [= <-] & ->). apply wret_inv in H1 as ([= ->] & ->).
+  change (w_files w1) with (w_files w) in Hfl.
+  assert (f_model fl = m) as Hown.
+  { unfold Unowned, model_b in HU. rewrite Hx, Hfl in HU. apply set_mem_in in Hfin. rewrite Hfin in HU. cbn in HU.
+    apply Bool.negb_false_iff, N.eqb_eq in HU. exact HU. }
+  apply wbind_inv in H as [(m1 & w2 & H1 & H) | (e0 & H1 & _)].
+  2:{ exfalso. unfold model_of in H1. apply wbind_inv in H1 as [(? & ? & H0 & H1) | (? & H0 & _)]; [|discriminate].
+      apply wget_inv in H0 as ([= ->] & ->). unfold fuel_of in H1. cbn [model_walk] in H1.
+      apply wbind_inv in H1 as [(? & ? & H0 & H1) | (? & H0 & _)]; [|apply get_node_inv in H0 as (? & _ & [=] & _)].
+      apply get_node_inv in H0 as (rn' & Hrn' & Erq & ->). injection Erq as Erq. subst. rewrite Hn1 in Hrn'. assert (rn' = rn) by congruence. subst rn'.
+      rewrite Hrp in H1. discriminate. }
+  assert (m1 = m /\ w2 = w1) as (-> & ->).
+  { unfold model_of in H1. apply wbind_inv in H1 as [(? & ? & H0 & H1) | (? & H0 & _)]; [|discriminate].
+    apply wget_inv in H0 as ([= ->] & ->). unfold fuel_of in H1. cbn [model_walk] in H1.
+    apply wbind_inv in H1 as [(? & ? & H0 & H1) | (? & H0 & _)]; [|apply get_node_inv in H0 as (? & _ & [=] & _)].
+    apply get_node_inv in H0 as (rn' & Hrn' & Erq & ->). injection Erq as Erq. subst. rewrite Hn1 in Hrn'. assert (rn' = rn) by congruence. subst rn'.
+    rewrite Hrp in H1. apply wret_inv in H1 as ([= ->] & ->). auto. }
+  clear H1. rewrite Hown, N.eqb_refl in H. cbn [negb] in H.
+  apply wbind_inv in H as [([loc cur'] & w2 & H2 & H) | (e0 & H2 & _)].
+  2:{ exfalso. eapply file_membership_err; eauto. eapply nodes_eff; [|exact Hcur]. auto. }
+  destruct (file_membership_spec _ _ _ _ _ H2) as (-> & Hcur' & _). clear H2.
+  assert (Eff w1 (m_root x) cur) as Hcur1 by (eapply nodes_eff; [|exact Hcur]; auto).
+  assert (cur' = cur) as -> by (eapply Eff_fun; eauto).
+  destruct (is_empty (set_remove f cur)) eqn:Eie; [apply is_empty_nil in Eie; congruence|].
+  apply wbind_inv in H as [(u1 & w2 & H1 & H) | (e0 & H1 & _)]; [|discriminate].
+  apply wret_inv in H1 as (_ & ->).
+  apply wbind_inv in H as [(u2 & w2 & H2 & H) | (e0 & H2 & _)]; [|apply modify_node_wset in H2 as (? & _ & [=] & _)].
+  assert (w_nodes w1 (m_root x) = Some rn) as Hrn1 by (rewrite Hn1; auto).
+  assert (same_tree w1 w2) as ST12.
+  { pose proof H2 as H2'. apply modify_node_wset in H2' as (en' & Hen' & _ & ->). apply (st_wset w1 _ en' _ Hen'); reflexivity. }
+  assert (Core w2) as C2 by (eapply Core_same_tree; eauto).
+  apply wbind_inv in H as [(w0 & w3 & H3 & H) | (e0 & H3 & _)]; [|apply wget_inv in H3 as ([=] & _)].
+  apply wget_inv in H3 as ([= ->] & ->).
+  destruct (dfs_ids_preorder w2 (m_root x) C2) as (l & Hl & _ & _ & Hids).
+  { apply (allocated_same_tree w1 w2); auto. exists rn; auto. }
+  apply wbind_inv in H as [(ids & w3 & H3 & H) | (e0 & H3 & _)]; [|congruence].
+  assert (ids = l /\ w3 = w2) as (-> & ->) by (rewrite Hl in H3; injection H3; auto). clear H3.
+  apply wbind_inv in H as [(td & w3 & H3 & H) | (e0 & H3 & _)].
+  2:{ destruct (scan_spec f l w2 _ _ H3) as ((td & [=]) & _). }
+  pose proof (modify_scan_stripped f (m_root x) cur rn w1 u2 w2 l td w3 C1 Hrn1 H2 Hids H3) as S.
+  (* the invariant of the model with the OLD file list, then with the new one *)
+  assert (FilesInvM T w1 x) as FIx1.
+  { apply (inv_more_files T w w1 x x); auto; apply incl_refl. }
+  assert (forall i p, Reach w1 (m_root x) i -> par w1 i p -> Reach w1 (m_root x) p /\ lists w1 p i) as Hpar1.
+  { intros i p Hr Hp. apply (reach_same_tree w1 w) in Hr; [|apply same_tree_sym; auto].
+    assert (par w i p) as Hp' by (destruct Hp as (n0 & Hn0 & Hpp); exists n0; rewrite <- Hn1; auto).
+    destruct (reach_par _ _ _ _ C Hxin Hr Hp') as (Hrp' & Hl'). split; [eapply reach_same_tree; eauto|eapply lists_same_tree; eauto]. }
+  assert (Reach w1 (m_root x) (m_root x)) as Hrr1 by (constructor; exists rn; auto).
+  assert (FilesInvM T w3 x) as FIx3.
+  { eapply (strip_inv_r T f (m_root x) cur w1 w3 x rn); eauto. }
+  assert (same_tree w1 w3) as ST13 by (apply (st_tree _ _ _ _ _ S)).
+  assert (TreeInv w3) as TI3 by (eapply TreeInv_same_tree; eauto).
+  assert (FilesInv T w3) as FI3.
+  { intros y Hy. rewrite (st_models _ _ _ _ _ S) in Hy. unfold w1 in Hy. cbn in Hy.
+    apply in_list_set_pos in Hy as [->|(j & Hj & Hy)].
+    - (* the model itself: no reached element has f in its set any more *)
+      destruct FIx3 as [A B Sp D]. apply mkFilesInvM; [ | exact B | exact Sp | intros _ i Hr; apply D; auto ].
+      intros i n3 Hr H3'. cbn in Hr. cbn. pose proof (A i n3 Hr H3') as Hi.
+      intros g Hg. apply in_swap_remove_other with f; auto.
+      intros ->. apply (reach_same_tree w3 w1) in Hr; [|apply same_tree_sym; auto].
+      destruct (stripped_node _ _ _ _ _ _ _ S H3') as (n1 & Hn1' & _).
+      destruct (st_node _ _ _ _ _ S _ _ Hn1') as (fs & H3'' & He & Hin & _).
+      rewrite H3' in H3''. injection H3'' as ->. cbn in Hg.
+      destruct (N.eq_dec i (m_root x)) as [Eq|Hne].
+      * rewrite (He Eq) in Hg. apply set_remove_in in Hg. tauto.
+      * rewrite (Hin Hne Hr) in Hg. apply set_remove_in in Hg. tauto.
+    - assert (In y (w_models w)) as Hyin by (eapply nth_error_In; eauto).
+      rewrite nth_opt_error in Hx.
+      assert (m_root y <> m_root x) as Hne by (apply (diff_pos_diff_root w j (N.to_nat m) y x C Hy Hx Hj)).
+      apply (inv_same_nodes w w3 y); auto; [eapply same_tree_trans; eauto|].
+      intros i Hi. destruct (reach_alloc _ _ _ C Hi) as (n0 & Hn0).
+      destruct (st_node _ _ _ _ _ S i n0) as (fs & H3' & _ & _ & Hout); [rewrite Hn1; auto|].
+      rewrite H3', Hn0. rewrite Hout; [rewrite set_files_eta; reflexivity|].
+      intros Hr. apply Hne. apply (reach_same_tree w1 w) in Hr; [|apply same_tree_sym; auto].
+      symmetry. apply (reach_one_root w x y i C Hxin Hyin Hr Hi). }
   destruct (del_loop_inv _ _ _ _ TI3 FI3 H) as (_ & FI4 & _). exact FI4.
 Qed.
 
